@@ -1791,6 +1791,33 @@ class Interp:
                 return ("fn", "pop", [recv])
             if name == "copy":
                 return ("list", list(l))
+            closed = not (len(recv) > 2 and recv[2])
+            if name == "remove" and args and closed:
+                for i_, x in enumerate(l):
+                    if x == args[0]:
+                        del l[i_]
+                        return C_NONE
+                if all(x[0] == "c" for x in l) and args[0][0] == "c":
+                    raise _Raise(("ext", "ValueError", []), "ValueError: list.remove(x): x not in list")
+            if name == "insert" and len(args) == 2 and closed and args[0][0] == "c" and isinstance(args[0][1], int):
+                l.insert(args[0][1], args[1])
+                return C_NONE
+            if name == "reverse" and closed:
+                l.reverse()
+                return C_NONE
+            if name == "sort" and closed and all(x[0] == "c" for x in l) and not kwargs:
+                try:
+                    l.sort(key=lambda x: x[1])
+                    return C_NONE
+                except TypeError:
+                    pass
+            if name == "clear":
+                del l[:]
+                return C_NONE
+            if name == "count" and closed and args and all(x[0] == "c" for x in l) and args[0][0] == "c":
+                return ("c", sum(1 for x in l if x == args[0]))
+            if name in ("remove", "insert", "reverse", "sort"):
+                self.notes.append("a list is changed by .%s() in a way the interpreter does not follow" % name)
             return ("fn", "list." + name, [recv] + list(args))
         if k == "atom":
             rv = self.concrete(recv)
